@@ -110,6 +110,15 @@ func (x *FnExec) execInstr(b *ssa.BasicBlock, in ssa.Instruction, st *State) boo
 		sv := x.coerce(x.value(in.Val), el)
 		if a := rootAlloc(in.Addr); a == nil || a.Heap {
 			x.noteEscape(sv) // a pointer written to memory others can read
+		} else if len(x.prov) > 0 {
+			// kept in a stack variable: a later load yields a term without provenance, so give the graph up
+			for _, l := range sv.Flatten() {
+				if !l.B {
+					if r := x.provOf(l.T); r != nil {
+						r.escaped = true
+					}
+				}
+			}
 		}
 		x.storeL(st, addr.T, el, sv, x.leavesOfPtr(in.Addr, el))
 	case *ssa.FieldAddr:
@@ -644,6 +653,9 @@ func (x *FnExec) indexAddr(in *ssa.IndexAddr, st *State) {
 		sz := x.mem.Size(u.Elem())
 		x.panicIf(st, Or(Lt(idx, "0"), Ge(idx, base.F[1].T)), "index out of range")
 		x.setVal(in, IntV(Add(base.F[0].T, Mul(idx, Lit(int64(sz))))))
+		if x.vals[in].T != base.F[0].T {
+			x.derived[x.vals[in].T] = base.F[0].T
+		}
 	case *types.Pointer:
 		arr := u.Elem().Underlying().(*types.Array)
 		sz := x.mem.Size(arr.Elem())
@@ -723,6 +735,12 @@ func (x *FnExec) sliceOp(in *ssa.Slice, st *State) {
 	}
 	x.panicIf(st, Or(Lt(lo, "0"), Gt(lo, hi), Gt(hi, mx), Gt(mx, cp)), "slice bounds out of range")
 	x.setVal(in, Comp(IntV(Add(ptr, Mul(lo, Lit(int64(sz))))), IntV(Sub(hi, lo)), IntV(Sub(mx, lo))))
+	if np := x.vals[in].F[0].T; np != ptr {
+		x.derived[np] = ptr
+	}
+	if in.Low != nil {
+		x.addSliceOffset(lo)
+	}
 }
 
 func (x *FnExec) mapKeyTerm(v Val) (Term, bool) {
@@ -904,6 +922,20 @@ func (x *FnExec) finish(args []Val) {
 			}
 		}
 	}
+	if con.MayPanic && con.NoIndexPanic && !con.NoRuntimePanic {
+		for i, ps := range x.panics {
+			if strings.Contains(ps.what, "index out of range") || strings.Contains(ps.what, "slice bounds out of range") || strings.Contains(ps.what, "division by zero") {
+				x.oblige(fmt.Sprintf("panic%d(%s).no_index_error", i+1, sanitize(ps.what)), "panic", "no out-of-range index, slice bound or division by zero [panic source: "+ps.what+"]", ps.st.reach, "false")
+			}
+		}
+	}
+	if con.MayPanic && con.NoRuntimePanic {
+		for i, ps := range x.panics {
+			if isRuntimePanic(ps.what) {
+				x.oblige(fmt.Sprintf("panic%d(%s).no_runtime_error", i+1, sanitize(ps.what)), "panic", "no Go run-time error (explicit panics and callee panics are allowed) [panic source: "+ps.what+"]", ps.st.reach, "false")
+			}
+		}
+	}
 	for k, pi := range con.PanicsIf {
 		p := envPre.EvalBool(pi.E)
 		for _, r := range x.rets {
@@ -918,6 +950,15 @@ func (x *FnExec) finish(args []Val) {
 			x.errorf("assert call %s: no call site matches (vacuous assertion)", ca.Callee)
 		}
 	}
+}
+
+func isRuntimePanic(what string) bool {
+	for _, k := range []string{"index out of range", "slice bounds out of range", "integer division by zero", "nil dereference", "type assertion failed", "nil map", "makeslice", "method call on nil interface", "nil receiver"} {
+		if strings.Contains(what, k) {
+			return true
+		}
+	}
+	return false
 }
 
 // frameObligation: outside the modifies set, pre-existing memory is unchanged.
